@@ -77,12 +77,14 @@ def build_agg(c, mult=None, sub=None):
     return agg
 
 
-def make_lab(pol, reuse=None):
+def make_lab(pol, reuse=None, typed=False):
     """a LabSetup holding the four polarisations `pol`.  reuse = {"perm": permutation of 0..3, "mode": "overwrite" | "feedback"}:
     the lab first holds the permuted four-tuple and is then re-configured - with fresh arrays, or (feedback) with the vectors its
     own getters returned, handed back in the order that makes the requested four-tuple `pol` again."""
     import quantarhei as qr
-    fl = [[float(x) for x in p] for p in pol]
+    # vectors are handed over as floats, except where the case asks for the types as written (integer pulse vectors together with a
+    # non-integer detection vector: what a user typing (1,0,0) and a magic-angle vector hands over)
+    fl = [[(x if isinstance(x, float) else int(x)) if typed else float(x) for x in p] for p in pol]
     lab = qr.LabSetup()
     if not reuse:
         lab.set_pulse_polarizations(pulse_polarizations=fl[:3], detection_polarization=fl[3])
@@ -260,6 +262,9 @@ def gen_system(r, k, tier):
 def gen_orient(r, k):
     c = {"kind": "orient", "pol": [rvec(r) for _ in range(4)], "dip": [rvec(r) for _ in range(4)],
          "sides": [r.choice([1, -1]) for _ in range(4)]}
+    if k % 5 == 2:              # integer-typed pulse vectors with a detection vector that has non-integer (dyadic) components
+        c["pol"][3] = r.choice([[0.5, 0.75, 0.0], [0.25, -0.5, 1.5], [0.5, 0.5, 0.5]])
+        c["typed"] = True
     if k % 3 == 1:              # one LabSetup object configured twice (second time with fresh arrays or with its own getters' output)
         perm = [0, 1, 2, 3]
         while perm == [0, 1, 2, 3]:
@@ -385,7 +390,7 @@ class StubAggregate:
 def run_orient(chk, c):
     import numpy
     from quantarhei.spectroscopy import diagramatics as diag
-    lab = make_lab(c["pol"], c.get("lab_reuse"))
+    lab = make_lab(c["pol"], c.get("lab_reuse"), typed=c.get("typed", False))
     e = [numpy.array(p, dtype=float) for p in c["pol"]]
     d = [numpy.array(p, dtype=float) for p in c["dip"]]
     held = numpy.array(list(lab.get_pulse_polarizations()) + [lab.get_detection_polarization()], dtype=float)
